@@ -35,17 +35,24 @@ AffineOK(e) ==
                        /\ Len(e.ptsi) = Len(e.pts)
                        /\ \A q \in 1..Len(e.ptsi) : SameSeq(e.ptsi[q], e.xi))
 
-\* op = "jac_quad": f_i = s_i x_{p_i}^2 (s_i = +-1) on dyadic data with exact squares: entry (i, j) is EXACTLY s_i (2 x_j + delta) for
-\* j = p_i and 0 for every other j; points and result in units of 2^-xs.  Complex: the quotient of z^2 is 2 z + delta (delta real).
+\* op = "jac_quad": f_i = s_i u_i (x_p^2 - x_q^2), s_i = +-1, u_i in {1, i} (u = 1 in the event: coefficient i), q_i = -1: no second term;
+\* dyadic data with exact squares: entry (i, j) is EXACTLY s_i u_i ([j = p_i] - [j = q_i]) (2 z_j + delta) - a central stencil gives 2 z_j,
+\* another step another number; points and result in units of 2^-xs; complex: z_j = x_j + i y_j, delta real, parts logged separately.
+QuadCf(e, i, j) == e.s[i + 1] * ((IF j = e.p[i + 1] THEN 1 ELSE 0) - (IF j = e.q[i + 1] THEN 1 ELSE 0))
 QuadOK(e) ==
     /\ ~e.panic
-    /\ ShapeOK(e, e.jac) /\ Len(e.x) = e.n /\ Len(e.p) = e.m /\ Len(e.s) = e.m /\ J!PointsExplained(e.pts, e.x, e.dsc)
-    /\ \A i \in 0..(e.m - 1) : \A j \in 0..(e.n - 1) :
-           At(e.jac, i, j) = IF j = e.p[i + 1] THEN e.s[i + 1] * J!QuadQuot(e.x[j + 1], e.dsc) ELSE 0
-    /\ (e.ty = "cx" => /\ ShapeOK(e, e.jaci) /\ Len(e.ptsi) = Len(e.pts)
-                       /\ \A q \in 1..Len(e.ptsi) : SameSeq(e.ptsi[q], e.xi)
-                       /\ \A i \in 0..(e.m - 1) : \A j \in 0..(e.n - 1) :
-                              At(e.jaci, i, j) = IF j = e.p[i + 1] THEN e.s[i + 1] * 2 * e.xi[j + 1] ELSE 0)
+    /\ ShapeOK(e, e.jac) /\ Len(e.x) = e.n /\ Len(e.p) = e.m /\ Len(e.s) = e.m /\ Len(e.q) = e.m /\ Len(e.u) = e.m
+    /\ J!PointsExplained(e.pts, e.x, e.dsc)
+    /\ IF e.ty = "cx"
+         THEN /\ ShapeOK(e, e.jaci) /\ Len(e.ptsi) = Len(e.pts) /\ Len(e.xi) = e.n
+              /\ \A q \in 1..Len(e.ptsi) : SameSeq(e.ptsi[q], e.xi)
+              /\ \A i \in 0..(e.m - 1) : \A j \in 0..(e.n - 1) :
+                     LET re == QuadCf(e, i, j) * J!QuadQuot(e.x[j + 1], e.dsc)
+                         im == QuadCf(e, i, j) * 2 * e.xi[j + 1]
+                     IN IF e.u[i + 1] = 1 THEN At(e.jac, i, j) = -im /\ At(e.jaci, i, j) = re
+                                          ELSE At(e.jac, i, j) = re /\ At(e.jaci, i, j) = im
+         ELSE \A i \in 0..(e.m - 1) : \A j \in 0..(e.n - 1) :
+                     e.u[i + 1] = 0 /\ At(e.jac, i, j) = QuadCf(e, i, j) * J!QuadQuot(e.x[j + 1], e.dsc)
 
 \* op = "jac_sq": the same maps at general points / steps (delta = 1e-8): units = |J_ij - Q*_ij| / (4 eps |f| / delta) (complex: 12 eps |f| / delta) against the exact
 \* forward quotient Q* of the evaluated points computed in double-double (entries of other variables: 8 eps |f| / delta); same discipline fields
